@@ -45,7 +45,24 @@ def fits_regions(nverts):
         lambda r: _fix_verts(r, nverts))
     regp = G.regular_polygon(sz, 'any', False, 10).map(
         lambda r: dict(r, nvertices=nverts))
-    return st.one_of(G.point('any', False), G.circle(sz, 'any', False),
+
+    # polygons with a vertex at the pixel origin (0, 0) - the value columns
+    # are padded with - as first, middle, last or last-two vertices
+    def origin_poly(t):
+        r, where = t
+        r = _fix_verts(r, nverts)
+        vx, vy = [list(v) for v in r['vertices']]
+        for i in {'first': [0], 'middle': [nverts // 2], 'last': [nverts - 1],
+                  'last2': [nverts - 1, max(nverts - 2, 0)]}[where]:
+            if where == 'last2' and i == nverts - 2:
+                vx[i], vy[i] = 0.0, 5.0          # (0, y): only x is zero
+            else:
+                vx[i], vy[i] = 0.0, 0.0
+        return dict(r, vertices=[vx, vy], shape_kind='through-origin')
+    opoly = st.tuples(G.polygon(G.sizes(1, 100), 'near', False, 10),
+                      st.sampled_from(['first', 'middle', 'last', 'last',
+                                       'last2'])).map(origin_poly)
+    return st.one_of(opoly, G.point('any', False), G.circle(sz, 'any', False),
                      G.ellipse(sz, 'any', False),
                      G.circle_annulus(sz, 'any', False),
                      G.asym_annulus('EllipseAnnulusPixelRegion', sz, 'any', False),
